@@ -13,3 +13,69 @@ package validator
 //@   modifies v.depth
 //@   ensures v.depth == old(v.depth) + (isOpeningEvent(jsonLexeme.lexEventType) ? 1 : 0 - 1)
 //@   ensures result1 == (v.depth == 0) && len(result0) == 0
+
+// The literal judgment. Its DEFINITION as litOK is assumed (see 42_nodes.gvs);
+// the rule-by-rule content of the judgment is the subject of C02.
+//@ func ValidateLiteralValue(node, jsonValue)
+//@   props C04
+//@   trusted "definition of litOK: the literal judgment is what this function decides; every panic it raises is a library error (errors.Err) or a positioned DocumentError"
+//@   maypanic
+//@   defines panics <==> !litOK(node, jsonValue)
+//@   defines panics ==> (typeis(pv, errors.DocumentError) || errWF(pv))
+//@   defines panics ==> (typeis(pv, errors.DocumentError) == litPosErr(node, jsonValue))
+
+// C04/C01: a literal leaf is judged by ValidateLiteralValue on the bytes of the LiteralEnd event
+//@ func (*literalValidator).feed(jsonLexeme)
+//@   props C01 C04
+//@   requires v != nil && jsonLexeme.file != nil && jsonLexeme.begin <= jsonLexeme.end + 1 && jsonLexeme.end + 1 <= cap(jsonLexeme.file.content)
+//@   maypanic
+//@   ensures panics <==> !(jsonLexeme.lexEventType == lexeme.LiteralBegin || (jsonLexeme.lexEventType == lexeme.LiteralEnd && litOK(v.node_, jsonLexeme.file.content[jsonLexeme.begin:jsonLexeme.end+1])))
+//@   ensures normal ==> len(result0) == 0 && result1 == (jsonLexeme.lexEventType == lexeme.LiteralEnd)
+//@   ensures panics ==> typeis(pv, errors.DocumentError)
+
+// C01: JSON-kind compatibility matrix: same kind | integer for float | null when nullable;
+// not applied to enum nodes (the enum rule decides)
+//@ func checkNotAnEnum(node, value)
+//@   props C01 C02
+//@   requires isNode(node) && consReady(node)
+//@   maypanic
+//@   ensures panics <==> (!hasRule(node, constraint.EnumConstraintType) && !kindOK(litKind(value), jtypeOf(node), hasRule(node, constraint.NullableConstraintType)))
+//@   ensures panics && litKind(value) != 0 ==> errWF(pv) && errCodeOf(pv) == errors.ErrInvalidValueType
+
+// C01/C02: array positions. Item i is validated against example element
+// min(i, last); at the end of the array every array rule is applied to the
+// number of items seen
+//@ func (*arrayValidator).feed$1(k, av)
+//@   props C01 C02
+//@   requires v != nil
+//@   maypanic
+//@   ensures panics <==> !arrOK(av, v.itemsCounter)
+//@   ensures panics ==> errWF(pv)
+
+// ASSUMED: the expansion of a position into its candidate validators has no
+// effect the caller can see and fails only with library errors (the C01/C03
+// content of the expansion is stated on buildList/appendNodeValidators)
+//@ func NodeValidatorList(node, rootSchema, parent)
+//@   props C01 C03
+//@   trusted "validator list expansion: only its frame and error class are assumed here"
+//@   maypanic
+//@   defines normal ==> result == nvl(node, parent)
+//@   defines panics ==> (typeis(pv, errors.DocumentError) || errWF(pv))
+
+//@ func (*arrayValidator).feed(jsonLexeme)
+//@   props C01 C02
+//@   requires v != nil && v.itemsCounter < 18446744073709551615
+//@   requires typeis(v.node_, *schema.ArrayNode) ==> ival(v.node_) != 0 && consReady(v.node_)
+//@   maypanic
+//@   modifies v.itemsCounter, consOf(v.node_).mx.held
+//@   ensures jsonLexeme.lexEventType == lexeme.ArrayBegin || jsonLexeme.lexEventType == lexeme.ArrayItemEnd ==> normal && len(result0) == 0 && !result1 && v.itemsCounter == old(v.itemsCounter)
+//@   ensures jsonLexeme.lexEventType == lexeme.ArrayItemBegin && !(typeis(v.node_, *schema.ArrayNode) && len(unbox(v.node_, *schema.ArrayNode).children) > 0) ==> panics
+//@   ensures jsonLexeme.lexEventType == lexeme.ArrayItemBegin && normal ==> !result1 && v.itemsCounter == old(v.itemsCounter) + 1
+//@   ensures jsonLexeme.lexEventType == lexeme.ArrayItemBegin && normal ==>
+//@           (let n = len(unbox(v.node_, *schema.ArrayNode).children) in let i = old(v.itemsCounter) in
+//@            result0 == nvl(unbox(v.node_, *schema.ArrayNode).children[i < n ? i : n - 1], box(v)))
+//@   ensures jsonLexeme.lexEventType == lexeme.ArrayEnd ==> (panics <==> (typeis(v.node_, *schema.ArrayNode) &&
+//@           (exists p :: 0 <= p && p < len(consOf(v.node_).order) && !arrOK(consOf(v.node_).data[consOf(v.node_).order[p]], v.itemsCounter))))
+//@   ensures jsonLexeme.lexEventType == lexeme.ArrayEnd && normal ==> len(result0) == 0 && result1 && v.itemsCounter == old(v.itemsCounter)
+//@   ensures !(jsonLexeme.lexEventType == lexeme.ArrayBegin || jsonLexeme.lexEventType == lexeme.ArrayItemEnd || jsonLexeme.lexEventType == lexeme.ArrayItemBegin || jsonLexeme.lexEventType == lexeme.ArrayEnd) ==> panics
+//@   ensures panics ==> typeis(pv, errors.DocumentError)
